@@ -84,8 +84,11 @@ def _prune(keep):
     except FileNotFoundError:
         return
     ents.sort(key=lambda e: os.path.getmtime(os.path.join(CACHE, e)), reverse=True)
+    now = time.time()
     for e in ents[2:]:
-        shutil.rmtree(os.path.join(CACHE, e), ignore_errors=True)
+        # never remove a cache that was used recently: another check may be running against that tree
+        if now - os.path.getmtime(os.path.join(CACHE, e)) > 3 * 3600 or len(ents) > 12:
+            shutil.rmtree(os.path.join(CACHE, e), ignore_errors=True)
 
 
 def build(flavour, variant="generated", root=None, drivers=("theo_drv",), quiet=True):
@@ -98,6 +101,10 @@ def build(flavour, variant="generated", root=None, drivers=("theo_drv",), quiet=
     out = os.path.join(CACHE, th, flavour)
     result = {d: os.path.join(out, "%s.%s" % (d, variant)) for d in drivers}
     if all(os.path.exists(p) for p in result.values()):
+        try:
+            os.utime(os.path.join(CACHE, th), None)
+        except OSError:
+            pass
         return result
     lock = open(os.path.join(CACHE, "build.lock"), "w")
     fcntl.flock(lock, fcntl.LOCK_EX)
